@@ -105,11 +105,13 @@ def sig_of(m: dict) -> dict:
         if clause == 'file.parse':
             near = rec.get('near') or ['']
             cause = 'empty_string' if near and near[0].rstrip(' ').endswith(') :') else 'none'
+        elif rec.get('step') == 'generations' and rec.get('mode') == 'names':
+            cause = 'bases_by_name'
     elif rec.get('k') == 'bin':
         cause = rec.get('sig', {}).get('src', '')
     sig['cause'] = cause
     sig['group'] = '.'.join(clause.split('.')[:2])
-    keep = {k: v for k, v in rec.items() if k not in ('sig', 'parsed', 'got', 'snap', 'defs', 'order')}
+    keep = {k: v for k, v in rec.items() if k not in ('sig', 'parsed', 'got', 'snap', 'defs', 'order', 'blocks1', 'blocks2')}
     if 'lines' in keep and len(keep['lines']) > 60:
         keep['lines'] = keep['lines'][:60]
     sig['record'] = keep
@@ -182,7 +184,7 @@ def sample(path) -> dict:
     r = rs[len(rs) // 2]
     out = {}
     for k, v in r.items():
-        if k in ('snap', 'defs', 'order', 'parsed', 'got', 'model_dbs', 'dbs'):
+        if k in ('snap', 'defs', 'order', 'parsed', 'got', 'model_dbs', 'dbs', 'blocks1', 'blocks2'):
             continue
         if k == 'lines':
             v = v[:12]
@@ -197,136 +199,181 @@ def sample(path) -> dict:
 
 
 def run(tier: str, seed: int) -> int:
+    """The stages are independent of one another (each starts its own driver and TLC processes),
+    so they run side by side; TLC still produces every verdict."""
     t0 = time.time()
     work = core.Work()
     thorough = tier == 'thorough'
     env = {'VERIF_SEED': seed, 'VERIF_TIER': tier}
-    try:
-        cov = {'states': 0, 'transitions': 0, 'records_validated': 0, 'models': {}, 'samples': [], 'timing_s': {}}
-        allm: list = []
-        last = [time.time()]
 
-        def lap(name: str) -> None:
-            now = time.time()
-            cov['timing_s'][name] = round(cov['timing_s'].get(name, 0) + now - last[0], 1)
-            last[0] = now
-        # ---- 0. constants of the run: the real database's block structure
+    def new_cov() -> dict:
+        return {'states': 0, 'transitions': 0, 'records_validated': 0, 'models': {}, 'samples': [], 'timing_s': {}, 'traces': 0}
+
+    def timed(name: str, fn):
+        def job():
+            t = time.time()
+            cov = new_cov()
+            mism = fn(cov)
+            cov['timing_s'][name] = round(time.time() - t, 1)
+            return mism, cov
+        return job
+
+    def db_edges(name: str):
+        def fn(cov):
+            cfg = f'FgdDb{name}_edges.cfg'
+            r = run_tlc('FgdDb', cfg, workers=1)
+            core.require_mc(r, cfg)
+            edges = [p for p in r.prints if isinstance(p, dict) and p.get('tag') == 'EDGE']
+            dbs = [p for p in r.prints if isinstance(p, dict) and p.get('tag') == 'DBS']
+            if len(edges) != r.generated - 1 or len(dbs) != 1:
+                raise MachineryError(f'{cfg}: {len(edges)} edges for {r.generated} generated states')
+            actions: dict = {}
+            for e in edges:
+                actions[e['a']['op']] = actions.get(e['a']['op'], 0) + 1
+            cov['actions_covered'] = actions
+            cov['models'][cfg] = {'generated': r.generated, 'distinct': r.distinct, 'depth': r.depth}
+            cov['states'] += r.distinct
+            cov['transitions'] += r.generated
+            ef = work.path(cfg + '.json')
+            ef.write_text(json.dumps({'dbs': dbs[0]['dbs'], 'edges': edges}))
+            out = work.path(cfg + '.ndjson')
+            st = json.loads(core.run_driver('c16_driver.py', ['dbedges', ef, out], env=env).strip().splitlines()[-1])
+            cov['edges_replayed'] = st['edges_replayed']
+            cov['traces'] += st['edges_replayed']
+            mism = validate_traces(out, work, cov, parts=2)
+            cov['samples'].append(sample(out))
+            return mism
+        return fn
+
+    def db_sim(cov):
+        nbeh = 48 if thorough else 8
+        r = run_tlc('FgdDbSim', 'FgdDbSim.cfg', workers=4, simulate=f'num={nbeh}', depth=31, seed=seed + 1, timeout=1200)
+        core.require_mc(r, 'FgdDbSim.cfg')
+        behs = [p['h'] for p in r.prints if isinstance(p, dict) and p.get('tag') == 'BEH']
+        if len(behs) < nbeh // 2:
+            raise MachineryError(f'simulation produced {len(behs)} behaviours')
+        ops = {a['op'] for h in behs for a in h}
+        if not {'query', 'missing'} <= ops:
+            raise MachineryError(f'simulated behaviours lack actions: {ops}')
+        cov['simulated_behaviours'] = len(behs)
+        cov['transitions'] += sum(len(h) for h in behs)
+        cov['states'] += sum(len(h) for h in behs)
+        bf = work.path('behs.json')
+        bf.write_text(json.dumps(behs))
+        out = work.path('dbsim.ndjson')
+        core.run_driver('c16_driver.py', ['dbsim', bf, out], env=env)
+        cov['traces'] += len(behs)
+        mism = validate_traces(out, work, cov, parts=8)
+        cov['samples'].append(sample(out))
+        return mism
+
+    def db_singles(cov):
+        out = work.path('dbsingles.ndjson')
+        st = json.loads(core.run_driver('c16_driver.py', ['dbsingles', real, out], env=env).strip().splitlines()[-1])
+        cov['single_query_databases'] = st['singles']
+        cov['traces'] += st['singles']
+        return validate_traces(out, work, cov, parts=8 if thorough else 4)
+
+    def text_mc(cov):
+        tcfg = 'FgdDoc_text_mc.cfg' if thorough else 'FgdDoc_text6_mc.cfg'
+        r = run_tlc('FgdDoc', tcfg, workers=4)
+        core.require_mc(r, tcfg)
+        cov['models'][tcfg] = {'generated': r.generated, 'distinct': r.distinct, 'depth': r.depth}
+        cov['states'] += r.distinct
+        cov['transitions'] += r.generated
+        return []
+
+    # quick: a seed-rotated part of the larger families; thorough: every case
+    part = {'res': 1, 'io': 2, 'header': 3, 'kv': 5}
+
+    def doc_cases(sl: str):
+        def fn(cov):
+            cfg = f'FgdDoc_{sl}_edges.cfg'
+            r = run_tlc('FgdDoc', cfg, workers=4)
+            core.require_mc(r, cfg)
+            cases = [p for p in r.prints if isinstance(p, dict) and p.get('tag') == 'CASE']
+            if len(cases) * 4 != r.distinct:    # built, exported, parsed, reexported per case
+                raise MachineryError(f'{cfg}: {len(cases)} cases printed for {r.distinct} states')
+            cov['models'][cfg] = {'generated': r.generated, 'distinct': r.distinct, 'depth': r.depth, 'cases': len(cases)}
+            cov['states'] += r.distinct
+            cov['transitions'] += r.generated
+            if not thorough:
+                cases = cases[seed % part[sl]::part[sl]]
+            cf_ = work.path(f'cases_{sl}.json')
+            cf_.write_text(json.dumps(cases))
+            out = work.path(f'cases_{sl}.ndjson')
+            st = json.loads(core.run_driver('c16_driver.py', ['doccases', cf_, out], env=env).strip().splitlines()[-1])
+            if st['cases'] != len(cases):
+                raise MachineryError(f'{cfg}: driver ran {st["cases"]} of {len(cases)} cases')
+            cov['cases_replayed'] = st['cases']
+            cov['traces'] += st['cases']
+            mism = validate_doc(out, work, cov)
+            cov['samples'].append(sample(out))
+            return mism
+        return fn
+
+    def beyond(mode: str):
+        def fn(cov):
+            out = work.path(mode + '.ndjson')
+            st = json.loads(core.run_driver('c16_driver.py', [mode, out], env=env).strip().splitlines()[-1])
+            cov[mode + '_records'] = st['records']
+            cov['traces'] += st['records']
+            mism = validate_doc(out, work, cov)
+            cov['samples'].append(sample(out))
+            return mism
+        return fn
+
+    try:
+        total = new_cov()
+        # ---- constants of the run: the real database's block structure
         real = work.path('real_db.json')
         info = json.loads(core.run_driver('c16_driver.py', ['dbdesc', real], env=env).strip().splitlines()[-1])
-        cov['bundled_database'] = info
+        total['bundled_database'] = info
         # development aid: C16_STAGES=db,doc,beyond restricts a run to some stages (default: all)
         stages = set((os.environ.get('C16_STAGES') or 'db,doc,beyond').split(','))
-        traces = 0
+        jobs = []
+        if 'beyond' in stages:       # (longest first)
+            jobs.append(timed('bundled', beyond('bundled')))
+        if 'doc' in stages:
+            jobs.append(timed('doc_cases_kv', doc_cases('kv')))
+        if 'db' in stages:
+            jobs.append(timed('db_sim', db_sim))
+            jobs += [timed('db_edges_' + n, db_edges(n)) for n in ('Cyc', 'Chain', 'Two')]
+            jobs.append(timed('db_singles', db_singles))
+        if 'doc' in stages:
+            jobs += [timed('doc_cases_' + sl, doc_cases(sl)) for sl in ('header', 'io', 'res')]
+            jobs.append(timed('doc_text_mc', text_mc))
+        if 'beyond' in stages:
+            jobs += [timed(m, beyond(m)) for m in ('docrandom', 'binary', 'long')]
+        allm: list = []
         with Env(FGD_DB_FILE=real):
-          if 'db' in stages:
-              # ---- 1. the lazy database design: exhaustive on small layouts, every edge replayed
-              actions: dict = {}
-              for name in ('Cyc', 'Chain', 'Two'):
-                  cfg = f'FgdDb{name}_edges.cfg'
-                  r = run_tlc('FgdDb', cfg, workers=1)
-                  core.require_mc(r, cfg)
-                  edges = [p for p in r.prints if isinstance(p, dict) and p.get('tag') == 'EDGE']
-                  dbs = [p for p in r.prints if isinstance(p, dict) and p.get('tag') == 'DBS']
-                  if len(edges) != r.generated - 1 or len(dbs) != 1:
-                      raise MachineryError(f'{cfg}: {len(edges)} edges for {r.generated} generated states')
-                  for e in edges:
-                      actions[e['a']['op']] = actions.get(e['a']['op'], 0) + 1
-                  cov['models'][cfg] = {'generated': r.generated, 'distinct': r.distinct, 'depth': r.depth}
-                  cov['states'] += r.distinct
-                  cov['transitions'] += r.generated
-                  ef = work.path(cfg + '.json')
-                  ef.write_text(json.dumps({'dbs': dbs[0]['dbs'], 'edges': edges}))
-                  out = work.path(cfg + '.ndjson')
-                  st = json.loads(core.run_driver('c16_driver.py', ['dbedges', ef, out], env=env).strip().splitlines()[-1])
-                  cov['edges_replayed'] = cov.get('edges_replayed', 0) + st['edges_replayed']
-                  allm += validate_traces(out, work, cov, parts=4)
-                  cov['samples'].append(sample(out))
-              lap('db_edges')
-              if not {'query', 'missing', 'loadall'} <= set(actions):
-                  raise MachineryError(f'vacuous FgdDb model: actions taken {actions}')
-              cov['actions_covered'] = actions
-              # ---- 2. TLC-simulated query orders over the real block structure
-              nbeh = 48 if thorough else 10
-              r = run_tlc('FgdDbSim', 'FgdDbSim.cfg', workers=4, simulate=f'num={nbeh}', depth=31, seed=seed + 1,
-                          timeout=1200)
-              core.require_mc(r, 'FgdDbSim.cfg')
-              behs = [p['h'] for p in r.prints if isinstance(p, dict) and p.get('tag') == 'BEH']
-              if len(behs) < nbeh // 2:
-                  raise MachineryError(f'simulation produced {len(behs)} behaviours')
-              ops = {a['op'] for h in behs for a in h}
-              if not {'query', 'missing'} <= ops:
-                  raise MachineryError(f'simulated behaviours lack actions: {ops}')
-              lap('db_sim_tlc')
-              cov['simulated_behaviours'] = len(behs)
-              cov['transitions'] += sum(len(h) for h in behs)
-              cov['states'] += sum(len(h) for h in behs)
-              bf = work.path('behs.json')
-              bf.write_text(json.dumps(behs))
-              out = work.path('dbsim.ndjson')
-              core.run_driver('c16_driver.py', ['dbsim', bf, out], env=env)
-              allm += validate_traces(out, work, cov)
-              cov['samples'].append(sample(out))
-              lap('db_sim_replay')
-              out = work.path('dbsingles.ndjson')
-              st = json.loads(core.run_driver('c16_driver.py', ['dbsingles', real, out], env=env).strip().splitlines()[-1])
-              cov['single_query_databases'] = st['singles']
-              allm += validate_traces(out, work, cov)
-              traces += cov.get('edges_replayed', 0) + len(behs) + st['singles']
-              lap('db_singles')
-          if 'doc' in stages:
-              # ---- 3. the text format: design theorems, every enumerated case through the real code
-              tcfg = 'FgdDoc_text_mc.cfg' if thorough else 'FgdDoc_text6_mc.cfg'
-              r = run_tlc('FgdDoc', tcfg, workers=8)
-              core.require_mc(r, tcfg)
-              cov['models'][tcfg] = {'generated': r.generated, 'distinct': r.distinct, 'depth': r.depth}
-              cov['states'] += r.distinct
-              cov['transitions'] += r.generated
-              lap('doc_text_mc')
-              ncases = 0
-              for sl in ('res', 'io', 'header', 'kv'):
-                  cfg = f'FgdDoc_{sl}_edges.cfg'
-                  r = run_tlc('FgdDoc', cfg, workers=8)
-                  core.require_mc(r, cfg)
-                  cases = [p for p in r.prints if isinstance(p, dict) and p.get('tag') == 'CASE']
-                  if len(cases) * 4 != r.distinct:    # built, exported, parsed, reexported per case
-                      raise MachineryError(f'{cfg}: {len(cases)} cases printed for {r.distinct} states')
-                  cov['models'][cfg] = {'generated': r.generated, 'distinct': r.distinct, 'depth': r.depth, 'cases': len(cases)}
-                  cov['states'] += r.distinct
-                  cov['transitions'] += r.generated
-                  if not thorough and sl == 'kv':
-                      # quick: every third case of the largest family (seed-rotated); thorough: all
-                      cases = cases[seed % 3::3]
-                  if not thorough and sl == 'header':
-                      cases = cases[seed % 2::2]
-                  cf_ = work.path(f'cases_{sl}.json')
-                  cf_.write_text(json.dumps(cases))
-                  out = work.path(f'cases_{sl}.ndjson')
-                  st = json.loads(core.run_driver('c16_driver.py', ['doccases', cf_, out], env=env).strip().splitlines()[-1])
-                  if st['cases'] != len(cases):
-                      raise MachineryError(f'{cfg}: driver ran {st["cases"]} of {len(cases)} cases')
-                  ncases += st['cases']
-                  allm += validate_doc(out, work, cov)
-                  cov['samples'].append(sample(out))
-                  lap('doc_cases_' + sl)
-              cov['cases_replayed'] = ncases
-              traces += ncases
-          if 'beyond' in stages:
-              # ---- 4. beyond the bounds: random definitions, long strings, the bundled database, binary
-              for mode in ('docrandom', 'long', 'bundled', 'binary'):
-                  out = work.path(mode + '.ndjson')
-                  st = json.loads(core.run_driver('c16_driver.py', [mode, out], env=env).strip().splitlines()[-1])
-                  cov[mode + '_records'] = st['records']
-                  allm += validate_doc(out, work, cov)
-                  cov['samples'].append(sample(out))
-                  traces += st['records']
-                  lap(mode)
-        cov['traces_validated_against_impl'] = traces
+            with cf.ThreadPoolExecutor(max_workers=5) as ex:
+                for mism, cov in ex.map(lambda j: j(), jobs):
+                    allm += mism
+                    for k, v in cov.items():
+                        if isinstance(v, bool) or not isinstance(v, (int, float, dict, list)):
+                            total[k] = v
+                        elif isinstance(v, (int, float)):
+                            total[k] = total.get(k, 0) + v
+                        elif isinstance(v, list):
+                            total.setdefault(k, []).extend(v)
+                        elif k == 'actions_covered':
+                            acc = total.setdefault(k, {})
+                            for a, n in v.items():
+                                acc[a] = acc.get(a, 0) + n
+                        else:
+                            total.setdefault(k, {}).update(v)
+        cov = total
+        if 'db' in stages and not {'query', 'missing', 'loadall'} <= set(cov.get('actions_covered', {})):
+            raise MachineryError(f'vacuous FgdDb model: actions taken {cov.get("actions_covered")}')
+        cov['traces_validated_against_impl'] = cov.pop('traces')
         cov['mismatches'] = len(allm)
         cov['exhaustive'] = True
         cov['rule'] = ('every transition of the three small FgdDb layouts replayed by its shortest path on databases written '
                        'by the real serialise(); TLC-simulated query orders (depth 30) and single queries on the real fgd.lzma; '
-                       'every (definition, options) case of the four FgdDoc families (quick: a third of the keyvalue family); '
-                       'seeded random definitions, long strings at LIMIT=1000, the bundled database as one file, binary round trip')
+                       'every (definition, options) case of the four FgdDoc families (quick: seed-rotated 1/2, 1/3, 1/5 of the io, '
+                       'header, keyvalue families); seeded random definitions, long strings at LIMIT=1000, the bundled database as '
+                       'one file (quick: one option combination, a third of the per-entity records), binary round trip')
         sigs = [sig_of(m) for m in allm]
         known, new = core.classify(PROP, sigs)
         return core.finish(PROP, tier=tier, seed=seed, t0=t0, coverage=cov, known=known, new=new,
